@@ -52,18 +52,22 @@ PSEGS = ["cafe\u0301", "caf\u00e9", "a", "axb", "a.b", "v1+", "v11", "v1", "a(b)
 
 def make_table(rng):
     routes = []
-    for _ in range(rng.randrange(1, 5)):
+    own_names = rng.random() < 0.4  # every route names its placeholders differently: what one route binds must not show up in another's parameters
+    for ri in range(rng.randrange(1, 5)):
         depth = rng.choice([1, 1, 2, 2, 3])
         segs = []
         for d in range(depth):
             t = rng.choice(SEG_TEMPLATES)
-            segs.append(t.replace("{N", "{p%d" % d).replace("{M", "{q%d" % d))
+            sfx = "_r%d" % ri if own_names else ""
+            segs.append(t.replace("{N", "{p%d%s" % (d, sfx)).replace("{M", "{q%d%s" % (d, sfx)))
         r = "/" + "/".join(segs)
         if rng.random() < 0.1:
             r = r + "/"
         if rng.random() < 0.05:
             r = r[1:]
         routes.append(r)
+    if own_names and rng.random() < 0.5:
+        routes.append(rng.choice(["/{rest:any}", "/{a}/{b}", "/{a}/{b:any}"]))  # a catch-all behind the typed routes
     return routes
 
 
@@ -267,6 +271,7 @@ REGRESSION = [
     (["/{p0:decimal}"], "/1x2"), (["/{p0:decimal}"], "/100"), (["/{p0:decimal}"], "/0"), (["/{p0:date}"], "/2021-13-45"),
     (["/a.b"], "/axb"), (["/{p0:any}"], "/a\nb"), (["/{p0:date}", "/{p0}"], "/2021-02-30"), (["/v1+"], "/v11"),
     (["/{p0:int}"], "/12\n"), (["/{p0:int}", "/{p0:any}"], "/١٢"), (["/a", "/{p0}"], "/a"), (["/{p0}", "/a"], "/a"),
+    (["/{start:date}/{end:date}", "/{a}/{b}"], "/2021-01-01/2021-02-30"), (["/{n:int}/{d:date}/x", "/{rest:any}"], "/7/2023-02-29/x"),
     (["/{p0}-{q0:int}"], "/x-y-3"), (["/{p0:uuid}"], "/" + U.upper()), (["/a(b)"], "/a(b)"), (["/a|b"], "/a"), (["/a$"], "/a"),
 ]
 
